@@ -80,6 +80,7 @@ struct Cfg {
     drop_into: bool,
     asref: bool,
     t9: bool,
+    t13: bool,
     deref_assign_rhs: bool,
     self_rename: Option<(String, String)>,
     kind_param: Vec<String>, // names standing for the array kind: K, VecKind
@@ -369,6 +370,27 @@ impl<'a, 'ast> Visit<'ast> for V<'a> {
                     }
                 }
             }
+            Expr::MethodCall(m) if self.cfg.t13 && m.method == "collect" && m.args.is_empty() && is_into_iter(&m.receiver) => {
+                // T13:  RECV.into_iter().collect()  ->  { let mut it = RECV.into_iter(); let mut v = Vec::new();
+                //         loop { match it.next() { Some(x) => { v.push(x); } None => { break; } } } v }
+                // (what Vec's FromIterator does: next() until None, pushing in order)
+                if let Expr::MethodCall(mm) = &*m.receiver {
+                    let recv = self.ed.r(&*mm.receiver);
+                    self.loop_ctr += 1;
+                    let idx = self.loop_ctr;
+                    let ann = self.cfg.loops.get(&idx).cloned();
+                    let (_itn, inv) = loop_annotation(&ann);
+                    let getf = |k: &str| ann.as_ref().and_then(|a| a.get(k)).and_then(|v| v.as_str()).unwrap_or("").to_string();
+                    let (pre, post, brk) = (getf("body_pre"), getf("body_post"), getf("break_pre"));
+                    let ety = getf("elem_ty");
+                    let vnew = if ety.is_empty() { "Vec::new()".to_string() } else { format!("Vec::<{}>::new()", ety) };
+                    let s = format!(
+                        "{{ let mut vx_it{i} = {recv}.into_iter();\n    let mut vx_v{i} = {vnew};\n    loop{inv}\n    {{\n        match vx_it{i}.next() {{\n            Some(vx_x{i}) => {{ {pre}\n                vx_v{i}.push(vx_x{i});\n                {post} }}\n            None => {{ {brk}\n                break; }}\n        }}\n    }}\n    vx_v{i} }}",
+                        i = idx, recv = recv, inv = inv, pre = pre, post = post, brk = brk, vnew = vnew
+                    );
+                    self.ed.replace(lo, hi, s, "T13");
+                }
+            }
             Expr::MethodCall(m) if self.cfg.t9 && m.method == "collect" && m.args.is_empty() && is_map_closure(&m.receiver) => {
                 // T9:  RECV.map(|P| BODY).collect()  ->  { let mut v = Vec::new(); for P in RECV { v.push(BODY); } v }
                 if let Expr::MethodCall(mm) = &*m.receiver {
@@ -543,6 +565,13 @@ impl<'a, 'ast> Visit<'ast> for V<'a> {
             _ => {}
         }
     }
+}
+
+fn is_into_iter(e: &Expr) -> bool {
+    if let Expr::MethodCall(m) = e {
+        return m.method == "into_iter" && m.args.is_empty();
+    }
+    false
 }
 
 fn is_map_closure(e: &Expr) -> bool {
@@ -731,6 +760,7 @@ fn cfg_from(req: &Value) -> Cfg {
         c.drop_into = r.get("drop_into").and_then(|v| v.as_bool()).unwrap_or(false);
         c.asref = r.get("asref").and_then(|v| v.as_bool()).unwrap_or(false);
         c.t9 = r.get("t9").and_then(|v| v.as_bool()).unwrap_or(false);
+        c.t13 = r.get("t13").and_then(|v| v.as_bool()).unwrap_or(false);
         c.deref_assign_rhs = r.get("deref_assign_rhs").and_then(|v| v.as_bool()).unwrap_or(false);
         if let Some(a) = r.get("self_rename").and_then(|v| v.as_array()) {
             if a.len() == 2 {
